@@ -78,7 +78,7 @@ def gen_plan(rng, tier, index):
             frames.append(["ctl", rc.REJECT_REQ, rng.getrandbits(32)])
             continue
         n = rng.choice(BODY_LENS)
-        if big_allowed and rng.random() < 0.08:
+        if big_allowed and rng.random() < (0.08 if tier == "quick" else 0.02):
             n = rng.choice(BIG_LENS)
             big_allowed = False
         if rng.random() < 0.2:
@@ -125,6 +125,10 @@ def gen_plan(rng, tier, index):
         outbound.append([rng.randrange(3), kind, size, rng.getrandbits(32)])
     plan["outbound"] = outbound
     plan["packet_size"] = rng.choice([7, 1024, 1 << 20, 1 << 20, 13])
+    if any(o[2] > 60000 for o in outbound) and plan["packet_size"] < 1024:
+        plan["packet_size"] = 1024      # MiB-sized bodies in 7-byte packets only burn the step budget
+    if any(o[2] > 60000 for o in outbound) or any(f[0] == "data" and f[6][1] > 60000 for f in frames):
+        plan["limits"] = {"max_steps": 6_000_000, "max_vtime": 3000.0}
     plan["latency"] = rng.choice([0.0, 0.0005, 0.01])
     plan["device_id"] = rng.choice([0, 1, 0x7FFF, 300])
     sched = dict(rng.choice(SCHEDS))
